@@ -83,6 +83,17 @@ def parsePub (s : String) : Option Pub :=
 
 def b2s (b : Bool) : String := if b then "1" else "0"
 
+/-- A Go string for humans: quoted when printable ASCII, hex otherwise. -/
+def showStr (s : GoStr) : String :=
+  if s.all (fun c => decide (32 ≤ c.toNat) && decide (c.toNat ≤ 126)) then "\"" ++ String.ofList (s.map fun c => Char.ofNat c.toNat) ++ "\""
+  else "0x" ++ toHex s
+
+def showFieldValue (f : Val) : String :=
+  match f.byteVec, f.u256 with
+  | some t, _ => s!"{showStr t.typ}:{showStr (t.value.take 80)}"
+  | none, some t => s!"{showStr t.typ}:{showStr (t.value.take 80)}"
+  | none, none => "<other variant>"
+
 def showVid (w : Msg) : String :=
   let (ec, em, tc, sq) := w.getID
   s!"{ec},{hexOrDash em},{tc},{sq}"
@@ -153,17 +164,23 @@ def stepCv (st : St) (id : String) (rest : List String) : St × List String :=
           else none
       | none =>
         if fn = "bytevec" ∨ fn = "byte32" then
+          let fits (b : Bytes) : Bool := fn = "bytevec" || b.length == 32
           match denotesBytes f with
           | some b =>
-            if fn = "byte32" ∧ b.length ≠ 32 then
-              (if res.startsWith "ok:" then some s!"byte32-unfit-accepted {b.length} bytes accepted as Byte32: {res}" else none)
-            else if res = "ok:" ++ hexOrDash b then none
-            else if res.startsWith "ok:" then some s!"{fn}-value-altered converter returned {res}"
-            else some s!"{fn}-fit-rejected well-formed hex of {b.length} bytes rejected: {res}"
-          | none => if res.startsWith "ok:" then some s!"{fn}-unfit-accepted field is not a hex ByteVec but the converter returned {res}" else none
+            if fits b then
+              (if res = "ok:" ++ hexOrDash b then none
+               else if res.startsWith "ok:" then some s!"{fn}-value-altered converter returned {res}"
+               else some s!"{fn}-fit-rejected well-formed hex of {b.length} bytes rejected: {res}")
+            else if res.startsWith "ok:" then some s!"byte32-unfit-accepted {b.length} bytes accepted as Byte32: {res}" else none
+          | none =>
+            if res.startsWith "ok:" then
+              match denotesBytesLenient f with
+              | some b => if fits b ∧ res = "ok:" ++ hexOrDash b then none else some s!"{fn}-unfit-accepted field does not denote these bytes but the converter returned {res}"
+              | none => some s!"{fn}-unfit-accepted field is not a hex ByteVec but the converter returned {res}"
+            else none
         else none
     match specV with
-    | some t => (st, [s!"spec {id} {t}"])
+    | some t => (st, [s!"spec {id} {t}; field {showFieldValue f}"])
     | none =>
       if model = res then (st, [s!"ok {id}"]) else (st, [s!"diff {id} {fn} model={model} impl={res}"])
   | _, _, _ => (st, [s!"diff {id} unparsable cv line"])
@@ -179,7 +196,7 @@ def checkPost (id : String) (rest : List String) (w : Msg) (ts : Int) : Option S
       | some c => some s!"spec {id} {c} header timestamp {ts} ms, message {showMsg w}, published {showPub p}"
       | none =>
         match specTxHash w.txId p with
-        | some c => some s!"spec {id} {c} tx id {strHex w.txId} published as {hexOrDash p.txHash}"
+        | some c => some s!"diff {id} {c} tx id {strHex w.txId} published as {hexOrDash p.txHash} (not part of the statement: tie only)"
         | none =>
           let mp := toMessagePublication w ts
           if mp ≠ p then some s!"diff {id} toMessagePublication model={showPub mp} impl={showPub p}"
@@ -209,7 +226,7 @@ def stepMsg (st : St) (id : String) (rest : List String) : St × List String :=
         let what := match obs with
           | some o => s!"accepted as {showMsg o}"
           | none => s!"rejected ({res})"
-        (st, [s!"spec {id} {c} event {what}; fits={fit}"])
+        (st, [s!"spec {id} {c} event {what}; fits={fit}; fields {", ".intercalate (fs.map showFieldValue)}"])
       | none =>
         let model := toWormholeMessage fs tx
         match obs, model with
@@ -270,13 +287,8 @@ def stepAtt (st : St) (id : String) (rest : List String) : St × List String :=
             if o.tokenId ≠ t ∨ o.decimals ≠ d ∨ ¬ isTrimOf o.symbol s ∨ ¬ isTrimOf o.name n then
               some s!"attest-roundtrip-altered contract encoded ({hexOrDash t},{d},{hexOrDash s},{hexOrDash n}) decoded {showTok o}"
             else none
-        else (match obs with
-          | some o => some s!"attest-foreign-chain-accepted token chain {c} accepted: {showTok o}"
-          | none => none)
-      | _, _ =>
-        match obs with
-        | some o => if inp.length ≠ 100 then some s!"attest-unfit-accepted {inp.length}-byte payload accepted: {showTok o}" else none
-        | none => none
+        else none   -- a foreign token chain is outside the statement: compared with the model only
+      | _, _ => none
     match specV with
     | some t => (st, [s!"spec {id} {t}"])
     | none =>
@@ -303,12 +315,14 @@ def stepHex (st : St) (id : String) (rest : List String) : St × List String :=
       let len := if fn = "tob32" then 32 else (kvNat rest "len").getD 0
       if res = "panic" then (st, [s!"spec {id} converter-panic hex conversion panicked"]) else
       let fit := s.length = 2 * len ∧ allHex s
+      let strict := fit ∧ isLowerHex s   -- the image of ToHex: must be accepted
       let specV : Option String :=
         if fit then
           match decodeHex s with
           | (b, none) =>
             if res ≠ "ok:" ++ hexOrDash b then
-              (if res.startsWith "ok:" then some s!"hex-value-altered {strHex s} decoded as {res}" else some s!"hex-fit-rejected {len}-byte hex string rejected: {res}")
+              (if res.startsWith "ok:" then some s!"hex-value-altered {strHex s} decoded as {res}"
+               else if strict then some s!"hex-fit-rejected {len}-byte hex string rejected: {res}" else none)
             else if fn = "tob32" ∧ (kv rest "back" >>= hexE) ≠ some (lowerHex s) then some s!"hex-roundtrip ToHex(HexToByte32(s)) differs from s"
             else none
           | _ => none
@@ -336,7 +350,7 @@ def stepCid (st : St) (id : String) (rest : List String) : St × List String :=
     let back := (kv rest "back").getD "-"
     let specV : Option String :=
       if fit then
-        if ¬ res.startsWith "ok:" then some s!"contract-id-fit-rejected 32-byte hex id rejected: {res}"
+        if ¬ res.startsWith "ok:" then (if isLowerHex s then some s!"contract-id-fit-rejected 32-byte hex id rejected: {res}" else none)
         else if back ≠ "ok:" ++ hexOrDash (decodeHex s).1 then some s!"contract-id-roundtrip ToContractId(ToContractAddress(id)) = {back}"
         else none
       else if res.startsWith "ok:" then some s!"contract-id-unfit-accepted {strHex s} is not a 32-byte hex id but was accepted" else none
